@@ -93,6 +93,8 @@ fn seq_of_raw(inst: usize, raw: u64) -> Option<i64> {
 
 // ---------------------------------------------------------------- recording layer
 struct Tag<const L: usize>(i64);
+/// the extension somebody else (an exporter holding a SpanRef) writes into a span: `poke`
+struct Note(i64);
 struct Rec<const L: usize> {
     inst: usize,
 }
@@ -107,6 +109,12 @@ where
             None => log(format!("{{\"k\":\"newgone\",\"i\":{},\"l\":{},\"q\":{}}}", self.inst, L, q)),
             Some(sp) => {
                 let stale = sp.extensions().get::<Tag<L>>().map(|t| t.0);
+                if L == 1 {
+                    // data an earlier occupant of this slot left behind?
+                    if let Some(v) = sp.extensions().get::<Note>().map(|n| n.0) {
+                        log(format!("{{\"k\":\"stalenote\",\"i\":{},\"q\":{},\"v\":{}}}", self.inst, q, v));
+                    }
+                }
                 // parent as stored: parent id present?  parent found?
                 #[allow(deprecated)]
                 let pid = sp.parent_id().cloned();
@@ -229,7 +237,8 @@ enum Op {
     New(u64, Pk, bool), // bool: DEBUG level (disabled for the filtered layer)
     PDrop(u64),         // the handle is dropped while a scripted panic unwinds (caught)
     Hold(u64, u64),     // hold k h: look the span of handle h up through its registry and keep the SpanRef in slot k
-    Poke(u64),          // poke k: write an extension through the held SpanRef
+    Poke(u64),          // poke k: write an extension (Note) through the held SpanRef
+    Peek(u64),          // peek k: read it back through the held SpanRef
     Release(u64),       // release k: drop the held SpanRef
     Clone(u64, u64),
     Drop(u64),
@@ -476,8 +485,14 @@ impl Worker {
                 None => log("{\"k\":\"ill\",\"c\":3}".into()),
                 Some(sp) => {
                     let q = seq_of_name(sp.name());
-                    sp.extensions_mut().replace(Tag::<1>(900 + q));
-                    sp.extensions_mut().replace(Tag::<2>(900 + q));
+                    sp.extensions_mut().replace(Note(900 + q));
+                }
+            },
+            Op::Peek(k) => match self.refs.get(k) {
+                None => log("{\"k\":\"ill\",\"c\":3}".into()),
+                Some(sp) => {
+                    let v = sp.extensions().get::<Note>().map(|n| n.0);
+                    log(format!("{{\"k\":\"peek\",\"v\":{}}}", opt(v)));
                 }
             },
             Op::Release(k) => match self.refs.remove(k) {
@@ -617,6 +632,7 @@ fn parse_op(f: &[&str]) -> (usize, Op) {
         "pdrop" => Op::PDrop(n(2)),
         "hold" => Op::Hold(n(2), n(3)),
         "poke" => Op::Poke(n(2)),
+        "peek" => Op::Peek(n(2)),
         "release" => Op::Release(n(2)),
         "clone" => Op::Clone(n(2), n(3)),
         "drop" => Op::Drop(n(2)),
